@@ -470,12 +470,10 @@ func rewriteFile(p *packages.Package, f *ast.File, fe *fileEdits, st *stats, rel
 			switch pkgOf(id) {
 			case "sync":
 				switch n.Sel.Name {
-				case "Mutex", "RWMutex", "WaitGroup", "Once", "Map":
+				case "Mutex", "RWMutex", "WaitGroup", "Once", "Map", "Cond", "NewCond", "OnceFunc", "OnceValue", "OnceValues":
 					fe.add(off(id.Pos()), len(id.Name), "zzsim")
 					fe.keep[id.Name] = id.Name + ".Locker"
 					st.SyncTypes++
-				case "Cond", "NewCond", "OnceFunc", "OnceValue", "OnceValues":
-					unsupported(n.Pos(), "sync."+n.Sel.Name)
 				}
 			case "time":
 				switch n.Sel.Name {
